@@ -143,6 +143,10 @@ class FrameItem(EFLRItem):
             If direction cannot be determined, it is assigned to None.
         """
 
+        if np.issubdtype(index_data.dtype, np.integer):
+            # differences of (unsigned or narrow) integers are computed in the same type and so can wrap around
+            index_data = index_data.astype(np.int64)
+
         diff = np.diff(index_data)
         diff_unique = np.unique(diff)
 
